@@ -55,7 +55,7 @@ func c02Walk(rows []string, size uint32) (pages [][]string, next []bool, prev []
 		return nil, nil, nil, true, "", false, ""
 	}
 	ctx := context.Background()
-	for idx := uint16(0); idx < 40; idx++ {
+	for idx := uint16(0); idx < 250; idx++ {
 		pg, _ := c02Page(ca, rs, size)
 		r, err := pg.Render(ctx, "node", idx)
 		if err != nil {
@@ -198,7 +198,50 @@ func TestBoundedC02(t *testing.T) {
 			}
 		}
 	}
+	// long walks: many pages of equal, non-empty rows (defects that need many page breaks)
+	longMax, longSizes := 64, []uint32{60, 100, 160}
+	if os.Getenv("VCGO_BOUND") == "thorough" {
+		longMax, longSizes = 200, []uint32{48, 60, 80, 100, 160, 255}
+	}
+	for n := 1; n <= longMax; n++ {
+		var rows []string
+		for i := 0; i < n; i++ {
+			rows = append(rows, fmt.Sprintf("r%03dxxxxxx", i))
+		}
+		for _, size := range longSizes {
+			pages, next, prev, past, detail, panicked, endErr := c02Walk(rows, size)
+			if len(pages) == 0 && !panicked {
+				skipped++
+				continue
+			}
+			cases++
+			var got []string
+			for _, p := range pages {
+				got = append(got, p...)
+			}
+			switch {
+			case panicked || detail != "":
+				record("unexpected", rows[:1], size, fmt.Sprintf("%d equal rows: %s", n, detail))
+			case len(pages) > 0 && next[len(pages)-1] && strings.Contains(endErr, "limit exceeded"):
+				if len(pages) <= 3 {
+					record("H27", rows[:1], size, fmt.Sprintf("%d equal rows: page %d offers next, page %d fails: %s", n, len(pages)-1, len(pages), endErr))
+				} else {
+					record("unexpected", rows[:1], size, fmt.Sprintf("%d equal rows: page %d offers next, page %d fails: %s", n, len(pages)-1, len(pages), endErr))
+				}
+			case strings.Join(got, "\x01") != strings.Join(rows, "\x01"):
+				record("unexpected", rows[:1], size, fmt.Sprintf("%d equal rows: %d rows shown on %d pages", n, len(got), len(pages)))
+			case !past:
+				record("unexpected", rows[:1], size, "no error past the last page")
+			default:
+				for i := range pages {
+					if next[i] != (i < len(pages)-1) || prev[i] != (i > 0) {
+						record("unexpected", rows[:1], size, fmt.Sprintf("%d equal rows: page %d of %d offers next=%v previous=%v", n, i, len(pages), next[i], prev[i]))
+					}
+				}
+			}
+		}
+	}
 	out, _ := json.Marshal(map[string]interface{}{"cases": cases, "skipped_not_fitting": skipped, "row_lists": len(lists), "classes": classes, "examples": examples, "unexpected": unexpected,
-		"bound": fmt.Sprintf("rows from %q, 1..%d rows, %d output sizes per list, every page index", alphabet, maxRows, nSizes)})
+		"bound": fmt.Sprintf("rows from %q, 1..%d rows, %d output sizes per list, every page index; plus 1..%d equal 10-byte rows at output sizes %v", alphabet, maxRows, nSizes, longMax, longSizes)})
 	fmt.Printf("BOUNDED-RESULT %s\n", out)
 }
